@@ -1184,3 +1184,59 @@ Lemma fetch_without_unpack_breaks :
   rs_view (rs_updates ex_inside [(ex_loc, 2)] rs2) ex_loc = RBroken /\     (* second pull, no unpacking *)
   rs_view (rs_fetch ex_inside [(ex_loc, 2)] rs2) ex_loc = RPoints 2.       (* second pull as FetchRefs does it *)
 Proof. vm_compute. repeat split. Qed.
+
+(* ------------------------------------------------------------------ packed-refs is stock git's; git-bug never packs
+
+   The packed-refs file as stock git reads it (refs/packed-backend.c): a line is a header or comment ("# pack-refs
+   with: ..."), a peeled value ("^" and an object id) or an object id, one blank and a reference name. Anything else —
+   "ref: refs/remotes/origin/main refs/remotes/origin/HEAD", what go-git's PackRefs writes for a symbolic reference such
+   as the refs/remotes/origin/HEAD of every clone — makes every git command die with "unexpected line in
+   .git/packed-refs". git pack-refs leaves symbolic references loose. git-bug has no reason to write into that file at
+   all: none of its steps adds an entry, however many references there are and however long the process lives; the
+   only entries that ever appear are those stock git's own packing puts there. *)
+Definition is_hex (c : N) : bool := is_digit c || ((97 <=? c) && (c <=? 102)).
+Definition oid_okb (l : str) : bool := Nat.eqb (List.length l) 40 && forallb is_hex l.
+Definition refname_char (c : N) : bool := (32 <? c) && negb (c =? 127).
+Definition packed_line_okb (l : str) : bool :=
+  match l with
+  | 35 :: _ => true                                                  (* # ... *)
+  | 94 :: r => oid_okb r                                             (* ^<object id>: the peeled value of the tag above *)
+  | _ => oid_okb (firstn 40 l) &&
+         match skipn 40 l with
+         | 32 :: name => prefixb N.eqb (lit "refs/") name && forallb refname_char name
+         | _ => false
+         end
+  end.
+
+Definition is_pack (s : rstep) : bool := match s with SPackAll => true | _ => false end.
+
+Lemma rs_cas_packed loc new rs : rs_packed (rs_cas loc new rs) = rs_packed rs.
+Proof. unfold rs_cas. destruct (lookup loc (rs_loose rs)) as [[h|]|]; [reflexivity|reflexivity|].
+  destruct (lookup loc (rs_packed rs)); reflexivity. Qed.
+
+Lemma rs_updates_packed inside ups : forall rs, rs_packed (rs_updates inside ups rs) = rs_packed rs.
+Proof. unfold rs_updates. induction (filter (fun u => inside (fst u)) ups) as [|u t IH]; intros rs; cbn; [reflexivity|].
+  rewrite IH. apply rs_cas_packed. Qed.
+
+Lemma rs_step_packed rs s : is_pack s = false -> incl (rs_packed (rs_step rs s)) (rs_packed rs).
+Proof. destruct s as [inside ups|loc h|loc|]; cbn; intros H; [| | |discriminate].
+  - unfold rs_fetch. rewrite rs_updates_packed. cbn. apply incl_refl.
+  - apply incl_refl.
+  - unfold del_at. intros e He. now apply filter_In in He as [He _]. Qed.
+
+(* whatever git-bug's fetches, reference writes and removals, in whatever number and order: every entry of packed-refs
+   afterwards was there before *)
+Theorem gitbug_never_packs steps : forall rs, forallb (fun s => negb (is_pack s)) steps = true ->
+  incl (rs_packed (rs_run steps rs)) (rs_packed rs).
+Proof. unfold rs_run. induction steps as [|s t IH]; intros rs H; cbn; [apply incl_refl|].
+  cbn in H. apply andb_true_iff in H as [Hs Ht]. apply negb_true_iff in Hs.
+  eapply incl_tran; [apply IH; exact Ht|]. now apply rs_step_packed. Qed.
+
+Lemma packed_line_examples :
+  packed_line_okb (lit "# pack-refs with: peeled fully-peeled sorted ") = true /\
+  packed_line_okb (lit "5f2d3a0c9b8e7d6c5b4a39281706f5e4d3c2b1a0 refs/remotes/origin/main") = true /\
+  packed_line_okb (lit "^5f2d3a0c9b8e7d6c5b4a39281706f5e4d3c2b1a0") = true /\
+  packed_line_okb (lit "ref: refs/remotes/origin/main refs/remotes/origin/HEAD") = false /\
+  packed_line_okb (lit "5f2d3a0c9b8e7d6c5b4a39281706f5e4d3c2b1a0 refs/heads/with blank") = false /\
+  packed_line_okb (lit "5f2d3a0c9b8e7d6c5b4a39281706f5e4d3c2b1a0") = false.
+Proof. vm_compute. repeat split; reflexivity. Qed.
